@@ -1,6 +1,15 @@
 package main
 
 // Hand-written cases that run first (cases 0..n-1). Names use the § / ¶ placeholders of the generator.
+// Cases with a Key are inputs on which /repo is known to violate the property (known-findings.txt).
+
+func ints(xs ...int64) [][]int64 {
+	var r [][]int64
+	for _, x := range xs {
+		r = append(r, []int64{x})
+	}
+	return r
+}
 
 func corpusProgs() []*Prog {
 	return []*Prog{
@@ -10,6 +19,69 @@ func corpusProgs() []*Prog {
 			Plain:   "var g¶_a = g¶_b + 1\nvar g¶_b = 2\nfunc §_F0() int {\nreturn g¶_a\n}\n",
 			Entries: []*Entry{{Name: "§_F0", Ret: KInt, Tuples: [][]int64{{}}}},
 			NParams: map[string]int{"§_F0": 0},
+		},
+		{
+			Kind: "corpus", Key: "switch-early-default",
+			Note: "a default clause that is not last is swapped with the last clause: fallthrough targets change",
+			Plain: `func §_F0(x int) int {
+r := 0
+switch x {
+case 1:
+r += 1
+fallthrough
+default:
+r += 10
+case 2:
+r += 100
+}
+return r
+}
+`,
+			Entries: []*Entry{{Name: "§_F0", Params: []Kind{KInt}, Ret: KInt, Tuples: ints(0, 1, 2, 3)}},
+			NParams: map[string]int{"§_F0": 1},
+		},
+		{
+			Kind: "corpus", Key: "switch-early-default",
+			Note: "a default clause that is not last is swapped with the last clause: case evaluation order changes",
+			Plain: `func §_F0(x int) int {
+a, b, c := 1, x, x
+switch x {
+case a:
+return 1
+default:
+return 2
+case b:
+return 3
+case c:
+return 4
+}
+}
+`,
+			Entries: []*Entry{{Name: "§_F0", Params: []Kind{KInt}, Ret: KInt, Tuples: ints(0, 1, 2, 3)}},
+			NParams: map[string]int{"§_F0": 1},
+		},
+		{
+			Kind: "corpus", Key: "recover-runtime-error",
+			Note: "a Go run-time error (division by zero) is recoverable in Go and an uncatchable FAULT in NeoVM",
+			Plain: `var g¶_r = 0
+func ¶_rec() {
+if r := recover(); r != nil {
+g¶_r = 7
+}
+}
+func ¶_div(a int, b int) int {
+defer ¶_rec()
+c := a / b
+return c
+}
+func §_F0(x int) int {
+y := ¶_div(10, x)
+return y + g¶_r
+}
+`,
+			ResetP:  "g¶_r = 0\n",
+			Entries: []*Entry{{Name: "§_F0", Params: []Kind{KInt}, Ret: KInt, Tuples: ints(0, 1, 2, 5)}},
+			NParams: map[string]int{"§_F0": 1, "¶_div": 2, "¶_rec": 0},
 		},
 	}
 }
